@@ -88,6 +88,10 @@ def gen_cases(rng, tier, scale):
         ('{{math/pi}}|{{{math/pi}}}|{{&math/pi}}', {'math': {'pi': 'field'}}, 'math/pi(;;bti;-)|math/pi(;;bti;-)|math/pi(;;bti;-)'),
         ('{{math/pi}}', {}, 'math/pi(;;bti;-)'), ('{{ns.id}}', {'ns': {'id': 'field'}}, ('err', 'ParamNotFoundForIndex')),
         ('{{#with math}}{{pi}}{{/with}}|{{math.pi}}|{{math/[pi]}}', {'math': {'pi': 'field'}}, 'field|field|field'),
+        # decorators at the top level of a partial-block body are evaluated before the partial runs, in either form
+        ('{{#> plain}}x{{*nodeco}}y{{/plain}}', {}, ('err', 'DecoratorNotFound')),
+        ('{{#> pu}}{{*sethelper "u" "L"}}{{/pu}}', {}, 'local(L:)||local(L:)'),
+        ('{{#> pu}}{{#*inline "zz"}}i{{/inline}}{{*sethelper "u" "M"}}b{{/pu}}', {}, 'local(M:)|b|local(M:)'),
         ('{{lh 1}}', {}, ('err', 'HelperNotFound')),
         ('{{#if t}}{{*sethelper "lh"}}{{/if}}{{lh 1}}', {'t': True}, 'local(lh:-:v:-:u1)'),
         ('{{> il}}', {}, ('err', 'PartialNotFound')),
@@ -103,7 +107,7 @@ def gen_cases(rng, tier, scale):
         ('{{*sethelper "u" "one"}}{{#if t}}{{*sethelper "u" "two"}}{{/if}}{{u}}', {'t': True}, 'local(two:)'),
     ]
     for i, (t, d, exp) in enumerate(fixed):
-        cases.append(rcase(f'f{i}', t, d, pre=['probes', 'esc 1'], entry=4, kind='fixed', exp=exp, tags=['decorator']))
+        cases.append(rcase(f'f{i}', t, d, pre=['probes', 'esc 1'], partials={'plain': 'P', 'pu': '{{u}}|{{> @partial-block}}|{{u}}'}, entry=4, kind='fixed', exp=exp, tags=['decorator']))
     return cases
 
 def expect(c):
